@@ -27,7 +27,9 @@ EXCS = ("SerialException", "PortNotOpenError", "SerialTimeoutException", "OSErro
 PRIM_PROFILE = Profile(write_exc=EXCS, read_exc=EXCS, latency=(0, 1, 24, 25, 26),
                        content=("bare", "nocomma", "echo", "commapay", "wrong", "shifted", "err",
                                 "nameerr"), silent=True,
-                       read_window=4, late={25, 26})
+                       read_window=4, late={25, 26},
+                       # the reads to wait through may be bare line ends instead of nothing
+                       blank=("\r\n", "\n", " \r\n"))
 METH_PROFILE = Profile(write_exc=("SerialException", "OSError"),
                        read_exc=("SerialException", "PortNotOpenError", "OSError"),
                        latency=(0, 1, 25, 26), content=("wrong", "shifted", "err", "nameerr"),
